@@ -386,7 +386,7 @@ impl Signature {
     ///
     /// We also consider `key` a match for `sig` by default, if `sig` contains no issuer-related
     /// subpackets.
-    fn match_identity(sig: &Signature, key: &impl KeyDetails) -> bool {
+    pub(crate) fn match_identity(sig: &Signature, key: &(impl KeyDetails + ?Sized)) -> bool {
         let issuer_key_ids = sig.issuer_key_id();
         let issuer_fps = sig.issuer_fingerprint();
 
